@@ -61,8 +61,26 @@ def main(ctx, replay=None):
             S = full21 if ci == -1 else cand[ci]
             nrows = int(rng.integers(1, 4))
             rows = [tensors[r] for r in rng.permutation(3)[:nrows]]
+            # a supplied INDEPENDENT component that happens to vanish at every volume (the null-space basis is in reduced form: leaving
+            # one basis tensor out zeroes its pivot component): it is still a known value, and the table still determines the tensor
+            zero_comp = None
+            if ci != -1 and s != "triclinic" and e["dim"] >= 2 and rng.random() < 0.3:
+                null = [[Fraction(x[0], x[1]) for x in v] for v in e["null"]]
+                j = int(rng.integers(0, len(null)))
+                piv = [n for n in range(21) if null[j][n] != 0 and all(null[k][n] == 0 for k in range(len(null)) if k != j)]
+                if piv and (piv[0] + 1) in S:
+                    zero_comp = piv[0] + 1
+                    rows = []
+                    for _r in range(nrows):
+                        co = [Fraction(int(rng.integers(-9, 10)) or 1, int(rng.integers(1, 5))) for _ in null]
+                        co[j] = Fraction(0)
+                        rows.append([sum(c * vec[n] for c, vec in zip(co, null)) for n in range(21)])
+            # values with many decimals: every row is multiplied by its own factor (the relations are homogeneous)
+            if rng.random() < 0.5:
+                facs = [Fraction(int(rng.integers(100000, 999999)), 1000003) for _ in rows]
+                rows = [[x * f for x in r] for r, f in zip(rows, facs)]
             zero_row = False
-            if nrows >= 2 and rng.random() < 0.4:
+            if zero_comp is None and nrows >= 2 and rng.random() < 0.4:
                 # a symmetry-allowed component that is exactly zero at one volume and not at the others (e.g. a sign change under
                 # compression): the combination below is still an invariant tensor (the subspace is linear)
                 n0 = int(rng.choice(sorted(nonvan))) - 1
@@ -83,7 +101,7 @@ def main(ctx, replay=None):
                 df.index = [int(i) for i in rng.permutation(nrows)]
             elif index_kind == "float":
                 df.index = [100.5 - 7.25 * i for i in range(nrows)]
-            case = {"system": s, "supplied": [SYMS[n - 1] for n in cols], "rows": nrows, "index": index_kind, "zero_row": zero_row}
+            case = {"system": s, "supplied": [SYMS[n - 1] for n in cols], "rows": nrows, "index": index_kind, "zero_row": zero_row, "zero_independent": zero_comp}
             ctx.count(case, nontrivial=set(S) != nonvan)
             sig = {"system": s}
             try:
